@@ -5,7 +5,8 @@ PROPS["C03"] = P(
     "arithmetic, bucket edges, consecutive, clusters}) by every builder (push, extend, chunked extend, From<&[usize]>, From<Vec>, concurrent set in shuffled order) and finished with 20 selection "
     "back-ends; len, get(i) for all i, iter/into_iter/iter_from(k)/into_iter_from(k) for the start positions 0..=n with the remaining-length hint before every step, compared with the generated Vec<usize>; "
     "plus builder rejection cases (out-of-order, > u, beyond n; via push, extend and From) after which the accepted values must come out. "
-    "distinct_nontrivial = number of distinct (back-end, builder, n class, u class, sequence class, op) cells observed with n >= 2, plus rejection cells in which at least one push was rejected and one accepted",
+    "distinct_nontrivial = number of distinct (back-end, builder, n class, u class, sequence class, op) cells observed with n >= 2, plus rejection cells in which at least one push was rejected and one accepted"
+    ' The iterators are also taken through nth / skip / step_by / count / last / size_hint / ExactSizeIterator::len (iterator-protocol monitor); extend is fed by iterators with legal but inexact size hints; a rejected extend follows an earlier push / extend history. ',
     dict(builds=["DBG", "UBC"], max_restarts=4000),
     dict(builds=["DBG", "UBC", "MIRI"], shards={"MIRI": 6, "DBG": 5, "UBC": 5}, max_restarts=4000),
     hang="violation",
